@@ -369,7 +369,7 @@ def r7_batch_key_is_whole_range(ctx):
 
 
 
-def r8_frontend_keeps_positions(ctx):
+def r8_frontend_keeps_positions(ctx, rule="C12.R8"):
     """the async client's front end turns the positional slot vector into the result list one entry per slot: in the loop
     over the slots every way round the loop appends exactly one entry to the result (or leaves the function with an
     error) - a branch that appends nothing shifts all later results down by one"""
@@ -386,12 +386,12 @@ def r8_frontend_keeps_positions(ctx):
     if some_t is None:
         raise AnchorLost("Some arm of the slot loop")
     pushes = [c for c in b.calls_to(r"Vec::<.*>::push$") if b.dominates(some_t, c.bb) and b.can_reach(c.bb, nx.bb)]
-    R.floor("C12.R8", len(pushes), 1, "result appends in the slot loop")
+    R.floor(rule, len(pushes), 1, "result appends in the slot loop")
     pb = {c.bb for c in pushes}
     every = flow.all_paths_pass(b, some_t, pb, {nx.bb}) and some_t != nx.bb
-    R.check(every, "C12.R8", "ws:every-slot-yields-an-entry", "every way round the slot loop appends an entry", "the async client's batch_request can go round its slot loop without appending an entry: the result list gets shorter and every later entry moves to the previous position", where(nx))
+    R.check(every, rule, "ws:every-slot-yields-an-entry", "every way round the slot loop appends an entry", "the async client's batch_request can go round its slot loop without appending an entry: the result list gets shorter and every later entry moves to the previous position", where(nx))
     twice = [c for c in pushes if (b.reach_from(c.bb, avoid={nx.bb}) - {c.bb}) & pb]
-    R.check(not twice, "C12.R8", "ws:one-entry-per-slot", "no way round the loop appends twice", "a slot can append two entries", where(twice[0]) if twice else None)
+    R.check(not twice, rule, "ws:one-entry-per-slot", "no way round the loop appends twice", "a slot can append two entries", where(twice[0]) if twice else None)
 
 
 RULES = [r1_sized_by_request, r2_slot_index, r3_range_and_zip, r4_counts, r5_allocator, r6_exact_id_number, r7_batch_key_is_whole_range, r8_frontend_keeps_positions]
